@@ -620,6 +620,8 @@ def stk_scope(ctx):
     kinds = set()
     for k, facts, store, extra, w in sym.exits(res):
         r = store.get('<return>')
+        if isinstance(r, str) and r.startswith("getattr(self, 'ltk'"):
+            r = 'self.ltk'  # the same attribute, read with a default for a session that has not computed it yet
         kinds.add(r)
         if r == 'self.stk':
             if not (sym.holds(facts, 'self.sc', False) and sym.holds(facts, 'self.completed', False)):
